@@ -151,6 +151,20 @@ def c17_c(ctx: Ctx):
         out.append(ctx.inc(R, fl, fl.node, "no os.walk in _find_all_links"))
     for w in walks:
         dn = w.target.elts[1].id if isinstance(w.target, ast.Tuple) and len(w.target.elts) == 3 and isinstance(w.target.elts[1], ast.Name) else None
+        # a leaf is a link to a job directory: os.walk lists it among the directory names while its target exists and among the file names once it dangles -
+        # both lists are looked at
+        if isinstance(w.target, ast.Tuple) and len(w.target.elts) == 3:
+            kw_ = fl.qual + "|both-name-lists"
+            unread = []
+            for e, what in ((w.target.elts[1], "directory names"), (w.target.elts[2], "file names")):
+                nm = e.id if isinstance(e, ast.Name) else None
+                if nm is None or not any(isinstance(x, ast.Name) and x.id == nm and isinstance(x.ctx, ast.Load) for st in w.body for x in ast.walk(st)):
+                    unread.append(what)
+            if unread:
+                out.append(ctx.viol(R, fl, w, f"the walk over the existing view never looks at the {' / '.join(unread)} os.walk reports: a 'job' link whose target is gone (job removed or re-keyed) "
+                                    "is listed among the file names, so dangling links are not found and neither they nor their directories are ever cleaned up", construct=kw_))
+            else:
+                out.append(ctx.ok(R, fl, w, "links are searched among the directory names and the file names of every directory", construct=kw_))
         prune = []
         for n in ast.walk(w):
             if isinstance(n, ast.Delete) and any(canon(t).startswith(f"{dn}[") for t in n.targets):
@@ -293,8 +307,8 @@ def c17_e(ctx: Ctx):
 @rule("C17-f")
 def c17_f(ctx: Ctx):
     """Per-job / per-entry loops are independent: nothing read in one iteration was computed in another."""
-    from .lints import per_item_loops, late_binding_in_loops
-    return late_binding_in_loops(ctx, "C17-f", ("signac.linked_view",)) + per_item_loops(ctx, "C17-f", [('signac.linked_view:create_linked_view', 'a job is linked under the path computed for the previous one'), ('signac.linked_view:_update_view', 'a link is created from the data of the previous one'), ] + ([('signac.linked_view:_analyze_view', 'a link is classified by the data of the previous one')] if 'signac.linked_view:_analyze_view' in ctx.prog.funcs else []))
+    from .lints import per_item_loops, late_binding_in_loops, one_shot_locals
+    return one_shot_locals(ctx, "C17-f", ("signac.linked_view", "signac.import_export")) + late_binding_in_loops(ctx, "C17-f", ("signac.linked_view",)) + per_item_loops(ctx, "C17-f", [('signac.linked_view:create_linked_view', 'a job is linked under the path computed for the previous one'), ('signac.linked_view:_update_view', 'a link is created from the data of the previous one'), ] + ([('signac.linked_view:_analyze_view', 'a link is classified by the data of the previous one')] if 'signac.linked_view:_analyze_view' in ctx.prog.funcs else []))
 
 
 @rule("C17-g")
